@@ -379,6 +379,47 @@ func c25AllOpcodesCovered() int {
 	return len(seen)
 }
 
+// P14 / P15: MBC1 cartridges of different ROM sizes (8 and 4 pages, every page signed): each selects its higher banks and
+// stores the signature it finds at 4001 in work RAM. P16 / P17: MBC3+TIMER cartridges: P16 keeps rewriting the live
+// seconds register and writes a LONE 01 to the latch port (never 00: nothing may be latched), then logs the latched
+// seconds; P17 keeps writing 00, 01 pairs. What one cartridge's registers hold must mean nothing to another's.
+func bankedGuest(cartType uint8, romCode uint8, pages int, banks []uint8) []byte {
+	img := machine.Image(cartType, romCode, 2, pages)
+	code := []byte{0x21, 0x00, 0xc0} // LD HL,C000
+	for _, b := range banks {
+		code = append(code, 0x3e, b, 0xea, 0x00, 0x20, 0xfa, 0x01, 0x40, 0x22) // LD A,b; LD (2000),A; LD A,(4001); LD (HL+),A
+	}
+	code = append(code, 0x7d, 0xe6, 0x3f, 0x6f) // L &= 3F
+	back := -(len(code) - 3 + 2)
+	code = append(code, 0x18, byte(back))
+	copy(img[0x100:], []byte{0xc3, 0x50, 0x01})
+	copy(img[0x150:], code)
+	return img
+}
+
+func init() {
+	c25Progs = append(c25Progs,
+		bankedGuest(0x01, 2, 8, []uint8{5, 6, 7, 4, 1}), // P14
+		bankedGuest(0x01, 1, 4, []uint8{3, 2, 1, 3, 2}), // P15
+		machine.ProgramCart(0x10, 0x02, map[uint16][]byte{0x100: { // P16
+			0x3e, 0x0a, 0xea, 0x00, 0x00, // RAM enable
+			0x21, 0x00, 0xc0, // LD HL,C000
+			0x3e, 0x08, 0xea, 0x00, 0x40, // select seconds
+			0x04, 0x78, 0xe6, 0x1f, 0xea, 0x00, 0xa0, // INC B; LD A,B; AND 1F; LD (A000),A   live seconds
+			0x3e, 0x01, 0xea, 0x00, 0x60, // lone 01 to the latch port
+			0xfa, 0x00, 0xa0, 0x22, // LD A,(A000); LD (HL+),A   latched seconds
+			0x7d, 0xe6, 0x3f, 0x6f, // L &= 3F
+			0x18, 0xea, // JR back to INC B
+		}}),
+		machine.ProgramCart(0x10, 0x02, map[uint16][]byte{0x100: { // P17
+			0x3e, 0x0a, 0xea, 0x00, 0x00,
+			0xaf, 0xea, 0x00, 0x60, // 00 to the latch port
+			0x00, 0x00, 0x00, 0x00, 0x00, 0x00,
+			0x3c, 0xea, 0x00, 0x60, // 01
+			0x18, 0xf0, // JR back to XOR A
+		}}))
+}
+
 type c25Case struct {
 	// Cfg: per instance, the emulator's debug options (Config.DebugCPU = bit 0, Config.DebugLCD = bit 1); nil = none.
 	// An instance is compared with a solo run built with the same options; an instance built without the
@@ -702,7 +743,7 @@ func init() {
 				}
 			}
 			// the same at frame-sized steps (2 instances x 2 frames); P10 needs a frame to reach the LCD-on loop
-			for _, mc := range []struct{ ps, cfg []int }{{[]int{10, 0}, []int{0, 1}}, {[]int{10, 10}, []int{0, 3}}, {[]int{9, 10}, []int{2, 0}}, {[]int{10, 9}, nil}, {[]int{9, 11}, nil}, {[]int{11, 9}, nil}, {[]int{11, 10}, nil}, {[]int{12, 12}, nil}, {[]int{12, 1}, nil}, {[]int{0, 12}, nil}} {
+			for _, mc := range []struct{ ps, cfg []int }{{[]int{10, 0}, []int{0, 1}}, {[]int{10, 10}, []int{0, 3}}, {[]int{9, 10}, []int{2, 0}}, {[]int{10, 9}, nil}, {[]int{9, 11}, nil}, {[]int{11, 9}, nil}, {[]int{11, 10}, nil}, {[]int{12, 12}, nil}, {[]int{12, 1}, nil}, {[]int{0, 12}, nil}, {[]int{14, 15}, nil}, {[]int{15, 14}, nil}, {[]int{16, 17}, nil}, {[]int{17, 16}, nil}, {[]int{16, 16}, nil}} {
 				for cr := 0; cr < 3; cr++ {
 					ok := true
 					interleavings(2, 2, func(s []int) bool {
@@ -742,9 +783,9 @@ func init() {
 			capture, os.Stdout = f, f
 			defer func() { os.Stdout = oldStdout; f.Close(); os.Remove(f.Name()) }()
 		}
-		explore.Product(c.R, "interleavings", explore.PartOpt{Workers: 1, Guard: true,
+		explore.Product(c.R, "interleavings", explore.PartOpt{Workers: 1, Guard: true, SameSig: true,
 			Bound:  fmt.Sprintf("all interleavings of shapes %v (instances x steps), units %v cycles + frame steps 2x3, 3x2; 3 creation orders", shapes, units),
-			Domain: "instances built with and without the debug options (CPU trace, debug LCD geometry) side by side; 14 guest programs (cartridge RAM on MBC3; a guest executing every defined opcode once per round; a second video program with other tile data and scroll; execution across echo RAM into object memory with the LCD on; ALU/CB/branches; stores/stack/CALL; timer interrupt + HALT; cartridge RAM writer on MBC1 with 4 banks; cartridge RAM read-before-write on MBC1 with 1 bank, on MBC2 and on MBC5; two sound programs that power-cycle the APU and run different channel-1 sweeps; video + OAM DMA + serial + joypad select)"},
+			Domain: "instances built with and without the debug options (CPU trace, debug LCD geometry) side by side; 18 guest programs (MBC1 cartridges of different ROM sizes selecting their higher banks; two MBC3 clock cartridges interleaving their latch-port writes; cartridge RAM on MBC3; a guest executing every defined opcode once per round; a second video program with other tile data and scroll; execution across echo RAM into object memory with the LCD on; ALU/CB/branches; stores/stack/CALL; timer interrupt + HALT; cartridge RAM writer on MBC1 with 4 banks; cartridge RAM read-before-write on MBC1 with 1 bank, on MBC2 and on MBC5; two sound programs that power-cycle the APU and run different channel-1 sweeps; video + OAM DMA + serial + joypad select)"},
 			gen, func() *c25Env { return &c25Env{solo: map[string][]uint64{}, out: capture, exe: c.SelfExe} }, c25Check)
 		os.Stdout = oldStdout
 		c25RacePass(c)
